@@ -250,6 +250,9 @@ def run_property(prop_name, tier, replay_path=None, jobs=None):
         with ctx.Pool(min(jobs, len(work)), maxtasksperchild=1) as pool:
             for d in pool.imap_unordered(_worker, work, chunksize=1):
                 results.append(d)
+    for d in results:
+        if isinstance(d["spec"], dict) and "_label" in d["spec"]:
+            d["spec"] = d["spec"]["_label"]
     results.sort(key=lambda d: json.dumps(d["spec"], sort_keys=True, default=repr))
 
     evaluations = 0
